@@ -1,10 +1,15 @@
 import Orb.Proto
 import Orb.Simplify
+import Orb.SimplifyExt
 
 /-! Driver for C12 (simplifiers: Douglas-Peucker, Radial, Visvalingam, helpers.go wrappers).
 
     `line <kind> <t1> <k1> <t2> <k2> <L|R> <n pts> => A | B | C`
-    `geom <kind> <t> <k> <gval> => <Simplify(g)> | <typed method(g) or none>`
+    `long …` same format (32/64/128 vertices): Float twin + structural clauses only
+    `seq <kind> <t> <k> <m> (<L|R> <n pts>)*m => r1 | … | rm`   (ONE simplifier value, m calls)
+    `geom <kind> <t> <k> <gval> => <Simplify(g)> | <typed method(g) or none> | <Simplify(result) again>`
+    `alias …` same format as geom (vertex lists laid out in one backing array; `clobber` = guard written)
+    `mvt <kind> <t> <k> <nl> (<nf> <gval>*nf)*nl => <nl> (<kept> (<index> <geometry>)*kept)*nl`
 
     For each line: (1) the Float twin of the model is compared bit-for-bit with the implementation's
     three results; (2) the executable statement of the property is evaluated on the implementation's
@@ -51,13 +56,26 @@ def maxFloatBits : UInt64 := 0x7fefffffffffffff
 
 def distF (p q : Pt Float) : Float := Float.sqrt (distSq p q)
 
+def infF : Float := 1.0 / 0.0
+def nanF : Float := 0.0 / 0.0
+
+/-- `math.Max` on float64 (the sign of a zero result aside: areas are only compared) -/
+def goMaxF : Option Float → Option Float → Option Float
+  | some x, some y =>
+    -- math.Max: `+Inf` if either is `+Inf` (even against NaN), else NaN if either is NaN
+    some (if x == infF || y == infF then infF else if x.isNaN || y.isNaN then nanF else if x < y then y else x)
+  | _, _ => none
+
+/-- the float64 twin.  Visvalingam: `visSP (some +Inf) goMaxF` (Orb/SimplifyExt.lean) — float64 arithmetic
+    throughout: the end items carry `+Inf` as in Go, so an area that overflows ties with them exactly as
+    it does in Go; identical to `visS` whenever every area is finite. -/
 def simpF (s : Spec) : Simplifier Float :=
   let t := Float.ofBits s.t
   match s.kind with
   | "dp" => dpS t
   | "rs" => radialS distSq t
   | "rd" => radialS distF t
-  | _ => visS (if (t * 2).isInf && t > 0 then none else some t) s.k
+  | _ => visSP (some infF) goMaxF (some t) s.k
 
 /-- the exact instance; `rd` (distance with a square root) is run on squared distances -/
 def simpQ (s : Spec) : Option (Simplifier Rat) :=
@@ -129,18 +147,126 @@ def closedB (ps : List BPt) : Bool :=
   | some a, some b => fEq a b
   | _, _ => false
 
-def keff (s : Spec) (lr : String) (inp : List BPt) : Nat :=
-  if s.k != 0 then s.k else if lr == "R" then (if closedB inp then visDefaultClosedRing else visDefaultOpenRing) else visDefaultLine
+/-- The effective minimum count of Visvalingam.  The defaults 2 (line) / 3 (open ring) / 4 (closed ring)
+    are written out here — the documented contract of visvalingam.go:17-19 — and NOT taken from the
+    model's constants, so that a model with other constants is caught by the executable property. -/
+def keff (k : Nat) (isRing : Bool) (inp : List BPt) : Nat :=
+  if k != 0 then k else if isRing then (if closedB inp then 4 else 3) else 2
 
-def allFiniteAreas (ps : List (Pt Float)) : Bool :=
-  let a := ps.toArray
-  (List.range a.size).all fun i => (List.range a.size).all fun j => (List.range a.size).all fun k =>
-    (doubleTriangleArea ps i j k).isFinite
+def isKeepN (s : Spec) : Bool :=
+  let t := Float.ofBits s.t
+  s.kind == "vs" && (t * 2).isInf && t > 0
+
+/-- how the triangle areas of a vertex list behave in float64 -/
+inductive AreaClass where
+  | finite | inf | nan
+deriving BEq, Inhabited
+
+def AreaClass.worse : AreaClass → AreaClass → AreaClass
+  | .nan, _ | _, .nan => .nan
+  | .inf, _ | _, .inf => .inf
+  | _, _ => .finite
+
+/-- `finite`: no triangle of three vertices (in index order, the only order Visvalingam uses) has an
+    area that overflows; `inf`: some area is `+Inf`, none is NaN; `nan`: some area is NaN (`Inf - Inf`).
+    The twin (`simpF`) is float64 arithmetic in all three cases. -/
+def areaClass (ps : List (Pt Float)) : AreaClass :=
+  if ps.all (fun p => p.x.abs < 1.0e150 && p.y.abs < 1.0e150) then .finite else
+  let n := ps.length
+  (List.range n).foldl (fun acc i =>
+    (List.range' (i + 1) (n - (i + 1))).foldl (fun acc j =>
+      (List.range' (j + 1) (n - (j + 1))).foldl (fun acc k =>
+        let a := doubleTriangleArea ps i j k
+        if a.isNaN then .nan else if a.isInf then acc.worse .inf else acc) acc) acc) .finite
 
 def run {α} (s : Simplifier α) (lr : String) (ps : List (Pt α)) : R (List (Pt α)) :=
   if lr == "R" then ring s ps else lineString s ps
 
-def handleLine (inp out : Toks) : String :=
+def endsOK (inp out : List BPt) : Bool :=
+  match inp.head?, inp.getLast?, out.head?, out.getLast? with
+  | none, _, none, _ => true
+  | some a, some b, some c, some d => bEq a c && bEq b d
+  | _, _, _, _ => false
+
+/-- structural and count clauses for ONE vertex list (the implementation's result `out` of `inp`) -/
+def structLine (s : Spec) (isRing : Bool) (inp out : List BPt) : Option String :=
+  let n := inp.length
+  if !(isSub out inp) then some "subseq-in-order" else
+  if n == 0 && !(out.isEmpty) then some "subseq-in-order empty" else
+  if !(endsOK inp out) then some "endpoints-kept" else
+  -- "the first and last vertex kept" is about positions: both ends of a line with two or more
+  -- vertices survive, so at least two vertices come back (a closed ring never collapses to one)
+  if n ≥ 2 && out.length < 2 then some "endpoints-kept both-ends" else
+  if closedB inp && !(closedB out) then some "closed-stays-closed" else
+  if s.kind == "vs" then
+    let k := keff s.k isRing inp
+    if out.length < min n k then some "vis-min-count" else
+    if isKeepN s && k ≥ 2 && n > k && out.length != k then some "vis-keep-exact" else none
+  else none
+
+/-- the quantitative clause of the kind in float64 (the rounding witness) -/
+def quantF (s : Spec) (inp out : List BPt) : Bool :=
+  let t := Float.ofBits s.t
+  match s.kind with
+  | "dp" => dpBoundOK distSegSq (t * t) inp.toArray out.toArray (inp.map ptF).toArray
+  | "rs" => spacingOK (fun p q => t < distSq p q) (out.map ptF)
+  | "rd" => spacingOK (fun p q => t < distF p q) (out.map ptF)
+  | _ => true
+
+/-- the quantitative clause of the kind, exactly (every finite float64 is a rational); `none` if some
+    number involved is not finite -/
+def quantQ (s : Spec) (inp out : List BPt) : Option Bool :=
+  match ptsQ? inp, ptsQ? out, bitsToRat? s.t with
+  | some psQ, some aQ, some t =>
+    (match s.kind with
+     | "dp" => some (dpBoundOK distSegSq (t * t) inp.toArray out.toArray psQ.toArray)
+     | "rs" => some (spacingOK (fun p q => t < distSq p q) aQ)
+     | "rd" => some (spacingOK (fun p q => t < 0 || t * t < distSq p q) aQ)
+     | _ => some true)
+  | _, _, _ => if s.kind == "vs" then some true else none
+
+/-- does the EXACT model (rationals) return what the implementation returned? -/
+def exactAgrees (s : Spec) (lr : String) (inp out : List BPt) : Bool :=
+  match ptsQ? inp, simpQ s, ptsQ? out with
+  | some psQ, some sq, some aQ =>
+    (match run sq lr psQ with
+     | .ok l => l.length == aQ.length && (l.zip aQ).all fun (p, q) => p.x == q.x && p.y == q.y
+     | _ => false)
+  | _, _, _ => false
+
+inductive JV where
+  | ok (exact : Bool)
+  | fail (clause : String)
+  | rounding (clause : String)
+  | nonfinite
+
+/-- the quantitative clause for one vertex list: exact, with the float64 evaluation as the rounding witness -/
+def quantLine (s : Spec) (lr : String) (inp out : List BPt) : JV :=
+  let clause := match s.kind with | "dp" => "dp-error-bound" | _ => "radial-spacing"
+  let exact := exactAgrees s lr inp out
+  match quantQ s inp out with
+  | some true => .ok exact
+  | some false => if quantF s inp out && !exact then .rounding clause else .fail clause
+  | none => if quantF s inp out then .nonfinite else .fail (clause ++ " float")
+
+def showI (x : Option (List BPt)) : String := match x with | some l => showPts l | none => "panic"
+
+def shapeTag (n m : Nat) : String :=
+  if n ≤ 2 then "triv-short" else if m == n then "all" else if m ≤ 2 then "ends" else "some"
+
+/-- Final verdict.  A `propfail` outranks a `diff`.  `overflow`: a Visvalingam run on FINITE coordinates
+    some of whose triangle areas are not finite in float64.  There the implementation's failures (the
+    nil-pointer panic when an end item is popped, lost nesting under NaN) are one documented defect
+    (known finding C12-vis-area-overflow): the specific label is given ONLY when the float64 twin
+    reproduces the implementation's outcome exactly; any disagreement stays a plain `propfail` / `diff`. -/
+def finish (overflow agree : Bool) (model v : String) : String :=
+  if v.startsWith "propfail" then
+    (if overflow && agree then "propfail vis-area-overflow " ++ (v.drop 9).toString else v)
+  else if agree then v
+  else "diff " ++ model
+
+/-- `line` (full = true) and `long` (full = false: Float twin and structural clauses only) -/
+def handleLine (full : Bool) (inp out : Toks) : String :=
   match (do
     let (s1, i) ← specP inp
     let (t2, i) ← bits i
@@ -156,105 +282,122 @@ def handleLine (inp out : Toks) : String :=
       match partPts pa, partPts pb, partPts pc with
       | some a?, some b?, some c? =>
         let psF := ps.map ptF
+        let isRing := lr == "R"
         -- (1) Float twin
         let mA := run (simpF s1) lr psF
         let mB := match mA with | .ok l => run (simpF s1) lr l | r => r
         let mC := run (simpF s2) lr psF
         let model := showR mA ++ " | " ++ showR mB ++ " | " ++ showR mC
-        let showI (x : Option (List BPt)) : String := match x with | some l => showPts l | none => "panic"
         let agree := showR mA == showI a? && showR mB == showI b? && showR mC == showI c?
-        -- Visvalingam areas that overflow to ±Inf/NaN (|coordinates| beyond ~1e154) or a NaN/Inf threshold
-        -- are outside the exact model (`none` is the only +Inf there)
-        let nonfinite := s1.kind == "vs" &&
-          (!(allFiniteAreas psF) || !(Float.ofBits s1.t).isFinite || !(Float.ofBits s2.t).isFinite)
-        let fin (v : String) : String :=
-          if nonfinite && (!agree || v.startsWith "propfail panic") then "skip nonfinite-area" else
-          if v.startsWith "propfail" || agree then v
-          else "diff " ++ model
-        fin <|
+        let cls := if s1.kind == "vs" then areaClass psF else .finite
+        finish (cls != .finite) agree model <|
         match a?, b?, c? with
         | some a, some b, some c =>
           let n := ps.length
-          -- (2) structural clauses on the implementation's results
-          if !(isSub a ps) then "propfail subseq-in-order A" else
-          if !(isSub c ps) then "propfail subseq-in-order C" else
+          -- (2) structural and count clauses on the implementation's results
+          match structLine s1 isRing ps a with
+          | some cl => "propfail " ++ cl
+          | none =>
+          match structLine s2 isRing ps c with
+          | some cl => "propfail " ++ cl ++ " C"
+          | none =>
           if !(isSub b a) then "propfail subseq-in-order B" else
-          if n == 0 && !(a.isEmpty) then "propfail subseq-in-order empty" else
-          if n > 0 && !(match a.head?, a.getLast?, ps.head?, ps.getLast? with
-              | some ah, some al, some ph, some pl => bEq ah ph && bEq al pl
-              | _, _, _, _ => false) then "propfail endpoints-kept" else
-          if n > 0 && !(match c.head?, c.getLast?, ps.head?, ps.getLast? with
-              | some ah, some al, some ph, some pl => bEq ah ph && bEq al pl
-              | _, _, _, _ => false) then "propfail endpoints-kept C" else
-          -- "the first and last vertex kept" is about positions: both ends of a line with two or more
-          -- vertices survive, so at least two vertices come back (a closed ring never collapses to one)
-          if n ≥ 2 && (a.length < 2 || c.length < 2) then "propfail endpoints-kept both-ends" else
-          if closedB ps && !(closedB a) then "propfail closed-stays-closed" else
           let t1F := Float.ofBits s1.t
           let t2F := Float.ofBits s2.t
           let ordered := t1F ≤ t2F && (0 : Float) ≤ t1F
-          let k1 := keff s1 lr ps
-          let k2 := keff s2 lr ps
-          let isKeepN := s1.kind == "vs" && (t1F * 2).isInf && t1F > 0
+          let k1 := keff s1.k isRing ps
+          let k2 := keff s2.k isRing ps
           let structural : Option String :=
             match s1.kind with
             | "dp" =>
               if !(bsEq a b) then some "propfail dp-idempotent" else
               if ordered && !(isSub c a) then some "propfail dp-nested" else none
             | "vs" =>
-              if n ≥ k1 && a.length < k1 then some "propfail vis-min-count" else
-              if n < k1 && a.length != n then some "propfail vis-min-count short" else
-              if n ≥ k2 && c.length < k2 then some "propfail vis-min-count C" else
-              if isKeepN && k1 ≥ 2 && n > k1 && a.length != k1 then some "propfail vis-keep-exact" else
               if ordered && k2 ≤ k1 && !(isSub c a) then some "propfail vis-nested" else none
             | _ => none
           match structural with
           | some v => v
           | none =>
-          -- (3) quantitative clauses: exact, with the float64 evaluation as the rounding witness
-          let aF := a.map ptF
-          let quantF : Bool :=
-            match s1.kind with
-            | "dp" => dpBoundOK distSegSq (t1F * t1F) ps.toArray a.toArray psF.toArray
-            | "rs" => spacingOK (fun p q => t1F < distSq p q) aF
-            | "rd" => spacingOK (fun p q => t1F < distF p q) aF
-            | _ => true
-          let quantQ : Option Bool :=
-            match ptsQ? ps, ptsQ? a, bitsToRat? s1.t with
-            | some psQ, some aQ, some t =>
-              (match s1.kind with
-               | "dp" => some (dpBoundOK distSegSq (t * t) ps.toArray a.toArray psQ.toArray)
-               | "rs" => some (spacingOK (fun p q => t < distSq p q) aQ)
-               | "rd" => some (spacingOK (fun p q => t < 0 || t * t < distSq p q) aQ)
-               | _ => some true)
-            | _, _, _ => if s1.kind == "vs" then some true else none
-          -- exact model, for the tag
-          let exact : Bool :=
-            match ptsQ? ps, simpQ s1, ptsQ? a with
-            | some psQ, some sq, some aQ =>
-              (match run sq lr psQ with
-               | .ok l => l.length == aQ.length && (l.zip aQ).all fun (p, q) => p.x == q.x && p.y == q.y
-               | _ => false)
-            | _, _, _ => false
-          let clause := match s1.kind with | "dp" => "dp-error-bound" | _ => "radial-spacing"
-          let shape :=
-            if n ≤ 2 then "triv-short"
-            else if a.length == n then "all"
-            else if a.length ≤ 2 then "ends"
-            else "some"
-          let tag := s!"ok {shape} {s1.kind} {lr} " ++ (if exact then "exact" else "rounded")
-          match quantQ with
-          | some true => tag   -- the exact statement holds
-          | some false =>
-            if quantF && !exact then "skip rounding-sensitive " ++ clause
-            else "propfail " ++ clause
-          | none => if quantF then s!"ok {shape} {s1.kind} {lr} nonfinite" else "propfail " ++ clause ++ " float"
+          let shape := shapeTag n a.length
+          if !full then s!"ok long {shape} {s1.kind} {lr} n{n}" else
+          -- (3) quantitative clauses
+          match quantLine s1 lr ps a with
+          | .fail cl => "propfail " ++ cl
+          | .rounding cl => "skip rounding-sensitive " ++ cl
+          | .nonfinite => s!"ok {shape} {s1.kind} {lr} nonfinite"
+          | .ok exact =>
+            match (if s1.kind == "vs" then JV.ok true else quantLine s2 lr ps c) with
+            | .fail cl => "propfail " ++ cl ++ " C"
+            | .rounding cl => "skip rounding-sensitive " ++ cl ++ " C"
+            | _ => s!"ok {shape} {s1.kind} {lr} " ++ (if exact then "exact" else "rounded")
         | _, _, _ => "propfail panic line"
       | _, _, _ => "bad output"
     | _ => "bad output"
 
+/-- `seq`: ONE simplifier value, m calls.  The model has no state: every call is judged on its own. -/
+def handleSeq (inp out : Toks) : String :=
+  match (do
+    let (s, i) ← specP inp
+    let (m, i) ← nat i
+    let (items, _) ← many (fun ts => do
+      let (lr, ts) ← tok ts
+      let (ps, ts) ← pts ts
+      pure ((lr, ps), ts)) m i
+    pure (s, items)) with
+  | none => "bad input"
+  | some (s, items) =>
+    if items.any fun (_, ps) => ps.any fun p => !(Float.ofBits p.x).isFinite || !(Float.ofBits p.y).isFinite then
+      "skip nonfinite-coordinate" else
+    let parts := if items.isEmpty then [] else splitBar out
+    if parts.length != items.length then "bad output" else
+    match parts.mapM partPts with
+    | none => "bad output"
+    | some outs =>
+      let models := items.map fun (lr, ps) => showR (run (simpF s) lr (ps.map ptF))
+      let agree := models == outs.map showI
+      let cls := if s.kind == "vs" then
+          items.foldl (fun acc (_, ps) => acc.worse (areaClass (ps.map ptF))) AreaClass.finite
+        else .finite
+      finish (cls != .finite) agree (" | ".intercalate models) <|
+      if outs.any (·.isNone) then "propfail panic seq" else
+      let rec go (idx : Nat) (rounding : Option String) : List ((String × List BPt) × Option (List BPt)) → String
+        | [] => (match rounding with
+                 | some cl => "skip rounding-sensitive " ++ cl
+                 | none => s!"ok seq {s.kind} m{items.length}")
+        | ((lr, ps), some o) :: rest =>
+          (match structLine s (lr == "R") ps o with
+           | some cl => s!"propfail {cl} seq {idx} {lr}"
+           | none =>
+             match quantLine s lr ps o with
+             | .fail cl => s!"propfail {cl} seq {idx} {lr}"
+             | .rounding cl => go (idx + 1) (some cl) rest
+             | _ => go (idx + 1) rounding rest)
+        | (_, none) :: _ => "propfail panic seq"
+      go 0 none (items.zip outs)
+
 /-! ### generic entry point -/
 
+/-- an INPUT value: collections may hold nil members; a nil interface and a nil `orb.MultiPoint`
+    (helpers.go:11, :18) are both `.nil`; the other typed nil slices are the empty value of their kind
+    (`geom` of Orb/Proto.lean); `n` as a count is a nil ring / line / polygon (read as empty) -/
+partial def igeomP : P (OGeom UInt64) := fun ts =>
+  match ts with
+  | "nil" :: ts => some (.nil, ts)
+  | "nMP" :: ts => some (.nil, ts)
+  | "nC" :: ts => some (.coll [], ts)
+  | "C" :: ts => do
+    let (n, ts) ← nat ts
+    let rec go : Nat → Toks → Option (List (OGeom UInt64) × Toks)
+      | 0, ts => some ([], ts)
+      | n+1, ts => do
+        let (g, ts) ← igeomP ts
+        let (gs, ts) ← go n ts
+        pure (g :: gs, ts)
+    let (gs, ts) ← go n ts
+    pure (.coll gs, ts)
+  | ts => (geom ts).map fun (g, ts) => (.geom g, ts)
+
+/-- an OUTPUT value (`gs` of the harness: typed nil slices never occur in a result) -/
 partial def ogeomP : P (OGeom UInt64) := fun ts =>
   match ts with
   | "nil" :: ts => some (.nil, ts)
@@ -280,6 +423,24 @@ partial def mapOGeom {α β} (f : α → β) : OGeom α → OGeom β
   | .geom g => .geom (mapGeom f g)
   | .coll gs => .coll (gs.map (mapOGeom f))
 
+partial def coordsO {α} : OGeom α → List α
+  | .nil => []
+  | .geom g => coords g
+  | .coll gs => gs.flatMap coordsO
+
+/-- all vertex lists that a simplifier is run on -/
+partial def linesOf {α} : Geom α → List (List (Pt α))
+  | .lineString l | .ring l => [l]
+  | .multiLineString l | .polygon l => l
+  | .multiPolygon l => l.flatMap id
+  | .collection gs => gs.flatMap linesOf
+  | _ => []
+
+partial def linesOfO {α} : OGeom α → List (List (Pt α))
+  | .nil => []
+  | .geom g => linesOf g
+  | .coll gs => gs.flatMap linesOfO
+
 def showRO (r : R (OGeom Float)) : String :=
   match r with
   | .ok g => showOGeom (mapOGeom Float.toBits g)
@@ -293,14 +454,15 @@ def liftR {β γ} (f : β → γ) (r : R β) : R γ :=
   | .panic w => .panic w
 
 /-- the typed method for the value's kind (`none` for points, multipoints, bounds) -/
-def typedModel (s : Simplifier Float) (g : Geom Float) : Option (R (OGeom Float)) :=
+def typedModel (s : Simplifier Float) (g : OGeom Float) : Option (R (OGeom Float)) :=
   match g with
-  | .lineString l => some (liftR (fun l => .geom (.lineString l)) (lineString s l))
-  | .multiLineString l => some (liftR (fun l => .geom (.multiLineString l)) (multiLineString s l))
-  | .ring l => some (liftR (fun l => .geom (.ring l)) (ring s l))
-  | .polygon l => some (liftR (fun l => .geom (.polygon l)) (polygon s l))
-  | .multiPolygon l => some (liftR (fun l => .geom (.multiPolygon l)) (multiPolygon s l))
-  | .collection l => some (liftR (fun l => .coll l) (collection s l))
+  | .geom (.lineString l) => some (liftR (fun l => .geom (.lineString l)) (lineString s l))
+  | .geom (.multiLineString l) => some (liftR (fun l => .geom (.multiLineString l)) (multiLineString s l))
+  | .geom (.ring l) => some (liftR (fun l => .geom (.ring l)) (ring s l))
+  | .geom (.polygon l) => some (liftR (fun l => .geom (.polygon l)) (polygon s l))
+  | .geom (.multiPolygon l) => some (liftR (fun l => .geom (.multiPolygon l)) (multiPolygon s l))
+  | .geom (.collection l) => some (liftR (fun l => .coll l) (collection s l))
+  | .coll l => some (liftR (fun l => .coll l) (collectionO s l))
   | _ => none
 
 /-- the type switch's rule: a typed result of length 0 becomes a nil interface -/
@@ -309,89 +471,178 @@ def wrapTyped : OGeom UInt64 → OGeom UInt64
   | .geom (.multiPolygon []) | .coll [] => .nil
   | g => g
 
-def validLine (inp out : List BPt) : Bool :=
-  isSub out inp &&
-  (match inp.head?, inp.getLast?, out.head?, out.getLast? with
-   | none, _, none, _ => true
-   | some a, some b, some c, some d => bEq a c && bEq b d
-   | _, _, _, _ => false)
+/-- what is demanded of one member vertex list, and when an inner ring / a polygon may vanish -/
+structure Judge where
+  /-- `ok isRing inner inp out` -/
+  ok : Bool → Bool → List BPt → List BPt → Bool
+  /-- may the ring `inp` legitimately come back with ≤ 2 points? -/
+  drop : List BPt → Bool
 
-/-- rings after the first may vanish; the others are simplifications, in order -/
-def matchRings : List (List BPt) → List (List BPt) → Bool
-  | _, [] => true
+def validLine (inp out : List BPt) : Bool := isSub out inp && endsOK inp out
+
+/-- level 0: subsequence in order, end points kept -/
+def judge0 : Judge := ⟨fun _ _ i o => validLine i o, fun _ => true⟩
+
+/-- level 1: + counts.  Closed stays closed, both ends kept, Visvalingam's minimum count and keep-N per
+    member, a surviving inner ring has more than 2 points, and a ring / polygon only vanishes if its
+    simplification can have ≤ 2 points (Visvalingam: only when min(n, minimum count) ≤ 2). -/
+def judge1 (s : Spec) : Judge :=
+  ⟨fun isRing inner i o => validLine i o && (structLine s isRing i o).isNone && (!inner || o.length > 2),
+   fun i => if s.kind == "vs" then min i.length (keff s.k true i) ≤ 2 else true⟩
+
+section quantDrop
+variable {α : Type}
+
+/-- Douglas-Peucker returns 2 points iff every interior vertex is within the threshold of the segment
+    first–last; radial returns ≤ 2 points iff no interior vertex is farther than the threshold from the first -/
+def dropQuant (kind : String) (offSeg : Pt α → Pt α → Pt α → Bool) (far : Pt α → Pt α → Bool) (ps : List (Pt α)) : Bool :=
+  match ps.head?, ps.getLast? with
+  | some a, some b =>
+    let inner := (ps.drop 1).dropLast
+    (match kind with
+     | "dp" => inner.all fun p => !(offSeg a b p)
+     | "rs" | "rd" => inner.all fun p => !(far a p)
+     | _ => true)
+  | _, _ => true
+end quantDrop
+
+/-- level 2: + the quantitative clause per member (exact = rationals, else float64) -/
+def judge2 (s : Spec) (exact : Bool) : Judge :=
+  let j1 := judge1 s
+  if s.kind == "vs" then j1 else
+  if exact then
+    match bitsToRat? s.t with
+    | none => j1
+    | some t =>
+      ⟨fun isRing inner i o => j1.ok isRing inner i o && (quantQ s i o).getD true,
+       fun i => j1.drop i && (i.length ≤ 2 ||
+         match ptsQ? i with
+         | some q => dropQuant s.kind (fun a b p => t * t < distSegSq a b p)
+             (fun p q => if s.kind == "rd" then t < 0 || t * t < distSq p q else t < distSq p q) q
+         | none => true)⟩
+  else
+    let t := Float.ofBits s.t
+    ⟨fun isRing inner i o => j1.ok isRing inner i o && quantF s i o,
+     fun i => j1.drop i && (i.length ≤ 2 ||
+       dropQuant s.kind (fun a b p => t * t < distSegSq a b p)
+         (fun p q => if s.kind == "rd" then t < distF p q else t < distSq p q) (i.map ptF))⟩
+
+/-- rings after the first: each is either kept (a valid simplification with more than 2 points) or
+    dropped (allowed to vanish), in order — every alignment is tried -/
+def matchRings (J : Judge) : List (List BPt) → List (List BPt) → Bool
+  | is, [] => is.all J.drop
   | [], _ :: _ => false
-  | i :: is, o :: os => if validLine i o then matchRings is os else matchRings is (o :: os)
+  | i :: is, o :: os => (J.ok true true i o && matchRings J is os) || (J.drop i && matchRings J is (o :: os))
 
-def validPolygon (inp out : List (List BPt)) : Bool :=
+def validPolygon (J : Judge) (inp out : List (List BPt)) : Bool :=
   match inp, out with
   | [], [] => true
-  | i :: is, o :: os => validLine i o && matchRings is os
+  | i :: is, o :: os => J.ok true false i o && matchRings J is os
   | _, _ => false
 
-def matchPolys : List (List (List BPt)) → List (List (List BPt)) → Bool
-  | _, [] => true
-  | [], _ :: _ => false
-  | i :: is, o :: os => if validPolygon i o then matchPolys is os else matchPolys is (o :: os)
+/-- a polygon vanishes from a multi polygon iff it has no ring or its outer ring comes back with ≤ 2 points -/
+def dropPoly (J : Judge) (p : List (List BPt)) : Bool :=
+  match p with
+  | [] => true
+  | r0 :: _ => J.drop r0
 
-/-- every vertex list of the result is an in-order subsequence with the same end points of the
-    input member it comes from; only inner rings and whole polygons may disappear -/
-partial def validOut : Geom UInt64 → OGeom UInt64 → Bool
+def matchPolys (J : Judge) : List (List (List BPt)) → List (List (List BPt)) → Bool
+  | is, [] => is.all (dropPoly J)
+  | [], _ :: _ => false
+  | i :: is, o :: os =>
+    ((match o with | r0 :: _ => r0.length > 2 | [] => false) && validPolygon J i o && matchPolys J is os) ||
+    (dropPoly J i && matchPolys J is (o :: os))
+
+/-- every vertex list of the result is judged against the input member it comes from; only inner
+    rings and whole polygons may disappear, and only when `J.drop` allows it -/
+partial def validOut (J : Judge) : Geom UInt64 → OGeom UInt64 → Bool
   | .point p, .geom (.point q) => bEq p q
   | .multiPoint p, .geom (.multiPoint q) => bsEq p q
   | .bound a b, .geom (.bound c d) => bEq a c && bEq b d
-  | .lineString i, .geom (.lineString o) => !o.isEmpty && validLine i o
+  | .lineString i, .geom (.lineString o) => !o.isEmpty && J.ok false false i o
   | .lineString i, .nil => i.isEmpty
-  | .ring i, .geom (.ring o) => !o.isEmpty && validLine i o
+  | .ring i, .geom (.ring o) => !o.isEmpty && J.ok true false i o
   | .ring i, .nil => i.isEmpty
   | .multiLineString i, .geom (.multiLineString o) =>
-    !o.isEmpty && i.length == o.length && (i.zip o).all fun (a, b) => validLine a b
+    !o.isEmpty && i.length == o.length && (i.zip o).all fun (a, b) => J.ok false false a b
   | .multiLineString i, .nil => i.isEmpty
-  | .polygon i, .geom (.polygon o) => !o.isEmpty && validPolygon i o
+  | .polygon i, .geom (.polygon o) => !o.isEmpty && validPolygon J i o
   | .polygon i, .nil => i.isEmpty
-  | .multiPolygon i, .geom (.multiPolygon o) => !o.isEmpty && matchPolys i o
-  | .multiPolygon _, .nil => true
-  | .collection i, .coll o => !o.isEmpty && i.length == o.length && (i.zip o).all fun (a, b) => validOut a b
+  | .multiPolygon i, .geom (.multiPolygon o) => !o.isEmpty && matchPolys J i o
+  | .multiPolygon i, .nil => i.all (dropPoly J)
+  | .collection i, .coll o => !o.isEmpty && i.length == o.length && (i.zip o).all fun (a, b) => validOut J a b
   | .collection i, .nil => i.isEmpty
   | _, _ => false
 
-def kindTag : Geom UInt64 → String
-  | .point _ => "triv-point" | .multiPoint _ => "triv-multipoint" | .bound _ _ => "triv-bound"
-  | .lineString _ => "linestring" | .ring _ => "ring" | .multiLineString _ => "multilinestring"
-  | .polygon _ => "polygon" | .multiPolygon _ => "multipolygon" | .collection _ => "collection"
+partial def validOutO (J : Judge) : OGeom UInt64 → OGeom UInt64 → Bool
+  | .nil, .nil => true
+  | .geom g, o => validOut J g o
+  | .coll i, .coll o => !o.isEmpty && i.length == o.length && (i.zip o).all fun (a, b) => validOutO J a b
+  | .coll i, .nil => i.isEmpty
+  | _, _ => false
 
+def kindTag : OGeom UInt64 → String
+  | .nil => "triv-nil"
+  | .coll _ => "collection"
+  | .geom g => match g with
+    | .point _ => "triv-point" | .multiPoint _ => "triv-multipoint" | .bound _ _ => "triv-bound"
+    | .lineString _ => "linestring" | .ring _ => "ring" | .multiLineString _ => "multilinestring"
+    | .polygon _ => "polygon" | .multiPolygon _ => "multipolygon" | .collection _ => "collection"
+
+/-- the member clauses, level by level; `none` = all hold -/
+def judgeMembers (s : Spec) (pairs : List (OGeom UInt64 × OGeom UInt64)) (what : String) : Option String :=
+  let all (J : Judge) : Bool := pairs.all fun (i, o) => validOutO J i o
+  if !(all judge0) then some ("propfail members-subseq " ++ what) else
+  if !(all (judge1 s)) then some ("propfail member-count " ++ what) else
+  if !(all (judge2 s true)) then
+    (if all (judge2 s false) then some "skip rounding-sensitive member-quant" else some ("propfail member-quant " ++ what))
+  else none
+
+def areaClassO (s : Spec) (v : OGeom UInt64) : AreaClass :=
+  if s.kind != "vs" then .finite else
+  (linesOfO v).foldl (fun acc l => acc.worse (areaClass (l.map ptF))) .finite
+
+def isNilTok (t : String) : Bool :=
+  t == "nil" || t == "nMP" || t == "nLS" || t == "nMLS" || t == "nR" || t == "nPG" || t == "nMPG" || t == "nC"
+
+/-- `geom` and `alias` -/
 def handleGeom (inp out : Toks) : String :=
   match (do
     let (s, i) ← specP inp
-    let (v, _) ← gval i
-    pure (s, v)) with
+    match i with
+    | [t] => if isNilTok t then pure (s, none, t) else
+             let (v, rest) ← igeomP i
+             if rest.isEmpty then pure (s, some v, "") else none
+    | _ =>
+      let (v, rest) ← igeomP i
+      if rest.isEmpty then pure (s, some v, "") else none) with
   | none => "bad input"
-  | some (s, v) =>
-    if (match v with
-        | .val g => (coords g).any fun c => !(Float.ofBits c).isFinite
-        | _ => false) then "skip nonfinite-coordinate" else
+  | some (s, v?, nilTok) =>
+    if (match v? with
+        | some v => (coordsO v).any fun c => !(Float.ofBits c).isFinite
+        | none => false) then "skip nonfinite-coordinate" else
     match splitBar out with
-    | [p1, p2] =>
+    | [p1, p2, p3] =>
       let sF := simpF s
-      let vF := mapGVal Float.ofBits v
-      let m1 := showRO (simplifyV sF vF)
-      let m2 := match vF with
-        | .val g => (match typedModel sF g with | some r => showRO r | none => "none")
-        | _ => "none"
+      let vF? := v?.map (mapOGeom Float.ofBits)
+      let r1 : R (OGeom Float) := match vF? with | some vF => simplifyO sF vF | none => .ok .nil
+      let m1 := showRO r1
+      let m2 := match vF? with
+        | some vF => (match typedModel sF vF with | some r => showRO r | none => "none")
+        | none => "none"
+      let m3 := match r1 with | .ok g => showRO (simplifyO sF g) | _ => "panic"
       let s1 := " ".intercalate p1
       let s2 := " ".intercalate p2
-      let agree := s1 == m1 && s2 == m2
-      let nonfinite := s.kind == "vs" && (!(Float.ofBits s.t).isFinite ||
-        (match v with
-         | .val g => (coords g).any fun c => !((Float.ofBits c).abs < 1.0e150)
-         | _ => false))
-      let fin (x : String) : String :=
-        if nonfinite && (!agree || x.startsWith "propfail panic") then "skip nonfinite-area" else
-        if x.startsWith "propfail" || agree then x else "diff " ++ m1 ++ " | " ++ m2
-      fin <|
+      let s3 := " ".intercalate p3
+      let agree := s1 == m1 && s2 == m2 && s3 == m3
+      let cls := match v? with | some v => areaClassO s v | none => .finite
+      finish (cls != .finite) agree (m1 ++ " | " ++ m2 ++ " | " ++ m3) <|
+      if s1 == "clobber" || s2 == "clobber" then "propfail alias-write-outside-window" else
       if s1 == "panic" then "propfail panic Simplify" else
       if s2 == "panic" then "propfail panic typed" else
-      match ogeomP p1 with
-      | some (o1, []) =>
+      if s3 == "panic" then "propfail panic again" else
+      match ogeomP p1, ogeomP p3 with
+      | some (o1, []), some (o3, []) =>
         let o2? : Option (Option (OGeom UInt64)) :=
           if s2 == "none" then some none else
           match ogeomP p2 with
@@ -403,22 +654,103 @@ def handleGeom (inp out : Toks) : String :=
            -- generic Simplify agrees with the typed method
            if (match o2? with | some o2 => showOGeom (wrapTyped o2) != showOGeom o1 | none => false) then
              "propfail generic-vs-typed" else
-           match v with
-           | .nilIface => if showOGeom o1 == "nil" then "ok triv-nil" else "propfail nil"
-           | .nilSlice _ => if showOGeom o1 == "nil" then "ok triv-nilslice" else "propfail nilslice"
-           | .val g =>
-             if !(validOut g o1) then "propfail members-subseq " ++ kindTag g else
-             "ok " ++ kindTag g ++ " " ++ s.kind ++ (if showOGeom o1 == "nil" then " to-nil" else ""))
-      | _ => "bad output"
+           match v? with
+           | none =>
+             if showOGeom o1 == "nil" && showOGeom o3 == "nil" then
+               (if nilTok == "nil" then "ok triv-nil" else "ok triv-nilslice")
+             else "propfail nil"
+           | some v =>
+             -- the second run works on the first result: judged as a simplification of it
+             match judgeMembers s [(v, o1), (o1, o3)] (kindTag v) with
+             | some verdict => verdict
+             | none =>
+               if s.kind == "dp" && showOGeom o3 != showOGeom o1 then "propfail dp-idempotent geom" else
+               "ok " ++ kindTag v ++ " " ++ s.kind ++ (if showOGeom o1 == "nil" then " to-nil" else ""))
+      | _, _ => "bad output"
     | _ => "bad output"
+
+/-! ### mvt.Layers.Simplify -/
+
+def layerInP : P (List (OGeom UInt64)) := fun ts => do
+  let (n, ts) ← nat ts
+  many igeomP n ts
+
+def featOutP : P (Int × OGeom UInt64) := fun ts => do
+  let (i, ts) ← int ts
+  let (g, ts) ← ogeomP ts
+  pure ((i, g), ts)
+
+def layerOutP : P (List (Int × OGeom UInt64)) := fun ts => do
+  let (n, ts) ← nat ts
+  many featOutP n ts
+
+def showLayers (ls : List (List (Nat × OGeom Float))) : String :=
+  ls.foldl (fun s l =>
+    l.foldl (fun s (i, g) => s ++ " " ++ toString i ++ " " ++ showOGeom (mapOGeom Float.toBits g))
+      (s ++ " " ++ toString l.length)) (toString ls.length)
+
+def handleMvt (inp out : Toks) : String :=
+  match (do
+    let (s, i) ← specP inp
+    let (nl, i) ← nat i
+    let (layers, rest) ← many layerInP nl i
+    if rest.isEmpty then pure (s, layers) else none) with
+  | none => "bad input"
+  | some (s, layers) =>
+    if layers.any fun l => l.any fun g => (coordsO g).any fun c => !(Float.ofBits c).isFinite then
+      "skip nonfinite-coordinate" else
+    let sF := simpF s
+    let inF : List (List (Nat × OGeom Float)) :=
+      layers.map fun l => (List.range l.length).zip (l.map (mapOGeom Float.ofBits))
+    let model := match layersSimplify sF inF with
+      | .ok r => showLayers r
+      | .err _ => "diverges"
+      | .panic _ => "panic"
+    let so := " ".intercalate out
+    let agree := so == model
+    let cls := layers.foldl (fun acc l => l.foldl (fun acc g => acc.worse (areaClassO s g)) acc) AreaClass.finite
+    finish (cls != .finite) agree model <|
+    if so == "panic" then "propfail panic mvt" else
+    match (do
+      let (nl, o) ← nat out
+      let (ls, rest) ← many layerOutP nl o
+      if rest.isEmpty then pure ls else none) with
+    | none => "bad output"
+    | some outs =>
+      if outs.length != layers.length then "propfail mvt-layer-count" else
+      -- per layer: the kept features in their original order, each with its own (simplified) geometry
+      let bad := (layers.zip outs).findSome? fun (l, o) =>
+        let idxs := o.map (·.1)
+        if idxs.any (· < 0) then some "propfail mvt-feature-identity" else
+        let ns := idxs.map Int.toNat
+        if !(ns.zip (ns.drop 1)).all (fun (a, b) => a < b) || ns.any (· ≥ l.length) then
+          some "propfail mvt-feature-order" else
+        if o.any (fun (_, g) => showOGeom g == "nil") then some "propfail mvt-nil-feature-kept" else
+        none
+      match bad with
+      | some v => v
+      | none =>
+        let pairs : List (OGeom UInt64 × OGeom UInt64) := (layers.zip outs).flatMap fun (l, o) =>
+          (List.range l.length).zip l |>.map fun (i, g) =>
+            match o.find? (fun (j, _) => j.toNat == i) with
+            | some (_, g') => (g, g')
+            | none => (g, OGeom.nil)
+        match judgeMembers s pairs "mvt" with
+        | some verdict => verdict
+        | none =>
+          if layers.all (·.isEmpty) then "ok triv-mvt-empty" else s!"ok mvt {s.kind}"
 
 def handle (ts : Toks) : String :=
   match ts with
   | op :: rest =>
     let (inp, out) := splitArrow rest
     match op with
-    | "line" => handleLine inp out
+    | "line" => handleLine true inp out
+    | "long" => handleLine false inp out
+    | "seq" => handleSeq inp out
     | "geom" => handleGeom inp out
+    | "alias" => handleGeom inp out
+    | "mvt" => handleMvt inp out
     | _ => "bad op " ++ op
   | [] => "bad empty"
 
